@@ -424,6 +424,8 @@ func mayAuth(c *Conn) bool {
 //@ func (c *Conn) handleLogin(tag string, dec *imapwire.Decoder) (err error)
 //@   props C04:post,pre@call C17:callsite C05:callsite
 //@   callsite Decoder.ExpectAString(d *imapwire.Decoder, ptr *string) requires mayAuth(c)
+//@   props C02:callsite
+//@   callsite[C02] Session.Login(s Session, username string, password string) requires password == __resultStr("Decoder.ExpectAString", 101)
 //@   requires tag != ""
 //@   ensures err == nil ==> __ghost("tagged") == old(__ghost("tagged"))+1
 //@   ensures err != nil ==> __ghost("tagged") == old(__ghost("tagged")) || __failed("Conn.writeCapabilityStatus")
@@ -431,9 +433,14 @@ func mayAuth(c *Conn) bool {
 //@   ensures c.state == old(c.state) || (old(mayAuth(c)) && c.state == imap.ConnStateAuthenticated)
 //@   ensures c.state != old(c.state) ==> __called("Session.Login") && !__failed("Session.Login")
 
+// (C17: a SASL challenge - the "+" that asks the client for credentials - is
+// sent only on a connection where credentials would be accepted; the state may
+// not have changed since that was checked.)
+//
 //@ func (c *Conn) handleAuthenticate(tag string, dec *imapwire.Decoder) (err error)
-//@   props C04:post,pre@call,callsite
+//@   props C04:post,pre@call,callsite C17:callsite
 //@   callsite Reader.ReadLine requires false
+//@   callsite[C17] writeContReq(e *imapwire.Encoder, text string) requires mayAuth(c)
 //@   requires tag != ""
 //@   ensures err == nil ==> __ghost("tagged") == old(__ghost("tagged"))+1
 //@   ensures err != nil ==> __ghost("tagged") == old(__ghost("tagged")) || __failed("writeCapabilityOK")
